@@ -1742,10 +1742,16 @@ class TrajectoryStore:
                     f'Data field "{name}" has values for species {missing} '
                     'that are not in the species dimension of the NetCDF file'
                 )
+        # The netCDF4 package writes variable-length elements from the raw
+        # buffer of the array it is given and ignores strides, so arrays that
+        # are views (e.g. a column of a table) are made contiguous first.
+        def contiguous(v: Any) -> Any:
+            return np.ascontiguousarray(v) if isinstance(v, np.ndarray) else v
+
         match (has_sp, has_tm):
             case (False, False):
                 # float, np.ndarray
-                var[index] = val
+                var[index] = contiguous(val)
             case (False, True):
                 # ThrustModeValues
                 for ti, tm in enumerate(ThrustMode):
@@ -1754,7 +1760,7 @@ class TrajectoryStore:
                 # SpeciesValues[float], SpeciesValues[np.ndarray]
                 for si, sp in enumerate(species):
                     if sp in val:
-                        var[index, si] = val[sp]
+                        var[index, si] = contiguous(val[sp])
             case (True, True):
                 # SpeciesValues[ThrustModeValues]
                 for si, sp in enumerate(species):
